@@ -20,7 +20,7 @@ theorem C20_build_interp (c : BCfg) (src : Str) (hq : c.q.textModeIdentify = fal
   simp [visitItems, visitItem, visitText, hn, bind, bModify, bGet, pure, Except.bind, Except.pure]
 
 theorem compileEN_interp_ok (tc : TCfg) (strict : Bool) (tok : Tok) (esc : Esc) (parts : List IPart)
-    (hparts : compileInterp tc 64 tok true true = .ok parts) (hpu : partsUnsupported parts = false) :
+    (hparts : compileInterp tc 64 tok true tc.decodeInterp = .ok parts) (hpu : partsUnsupported parts = false) :
     compileEN tc strict 16 (.interp tok esc none true true false) = .ok () := by
   rw [show (16 : Nat) = 15 + 1 from rfl, compileEN]
   simp only [hparts, hpu, bind, Except.bind, pure, Except.pure, laxFilter, Bool.false_eq_true, if_false]
@@ -36,7 +36,7 @@ theorem checkNode_seq1 (tc : TCfg) (strict : Bool) (n : Node) (f : Nat) (tr : Li
   simp only [h, bind, Except.bind, checkNodes, pure, Except.pure]
 
 theorem compileCheck_interp_ok (tc : TCfg) (strict : Bool) (tok : Tok) (esc : Esc) (parts : List IPart) (f : Nat)
-    (hparts : compileInterp tc 64 tok true true = .ok parts) (hpu : partsUnsupported parts = false) :
+    (hparts : compileInterp tc 64 tok true tc.decodeInterp = .ok parts) (hpu : partsUnsupported parts = false) :
     compileCheck tc strict (f + 3) [] (.seq [.interpolation (.interp tok esc none true true false)]) = .ok () := by
   unfold compileCheck
   simp only [List.foldlM_nil, bind, Except.bind, pure, Except.pure]
@@ -45,7 +45,7 @@ theorem compileCheck_interp_ok (tc : TCfg) (strict : Bool) (tok : Tok) (esc : Es
 /-- evaluating the program of such a text template: the one interpolation node emits `pre ++ value ++ post` -/
 theorem eval_text_interp (cfg : ECfg) (al : List (Str × Val)) (f : Nat) (tok tokE : Tok) (pre post text : Str) (te : TExpr)
     (s : RState) (top : Str) (rest : List Str) (v : Val) (t : Str) (x1 x2 : XState)
-    (hparts : compileInterp cfg.tc 64 tok true true = .ok [.lit pre, .expr te tokE text, .lit post])
+    (hparts : compileInterp cfg.tc 64 tok true cfg.tc.decodeInterp = .ok [.lit pre, .expr te tokE text, .lit post])
     (hs : s.streams = top :: rest)
     (hev : evalT cfg al s.env 61 te .none none { s.x with token := some ((Tok.strip tokE).pos, (Tok.strip tokE).str.length) } = .ok v x1)
     (hconv : convPartX cfg s.env .none none true v x1 = .ok (some t) x2) :
@@ -58,7 +58,7 @@ theorem eval_text_interp (cfg : ECfg) (al : List (Str × Val)) (f : Nat) (tok to
   simp only [eval, evalList, enVal, liftX, hval, bind, pure, emit, mModify, hs]
 
 /-- the configuration, scope and state `render` evaluates the program in -/
-def tcOf (r : RenderReq) : TCfg := { rx := r.bcfg.rx, q := r.bcfg.q, oracle := r.oracle }
+def tcOf (r : RenderReq) : TCfg := { rx := r.bcfg.rx, q := r.bcfg.q, oracle := r.oracle, decodeInterp := !r.textMode }
 
 def cfgOf (r : RenderReq) (booleans : List Str) (node : Node) : ECfg :=
   { tc := tcOf r, tab := r.tab, pyBuiltins := r.pyBuiltins, talesExc := r.talesExc, existsExc := r.existsExc, excParents := r.excParents,
@@ -70,12 +70,15 @@ def env0Of (r : RenderReq) : Env :=
 theorem C20_render_text_expr_text (r : RenderReq) (pre post text : Str) (te : TExpr) (tokE : Tok) (v : Val) (t : Str) (x1 x2 : XState)
     (ht : r.textMode = true) (hq : r.bcfg.q.textModeIdentify = false) (hi : r.bcfg.implicitI18nTranslate = false)
     (hl : r.libs = []) (hn : hasInterp (normalizeNewlines r.src) = true)
-    (hparts : compileInterp (tcOf r) 64 { str := normalizeNewlines r.src, pos := 0 } true true = .ok [.lit pre, .expr te tokE text, .lit post])
+    (hparts : compileInterp (tcOf r) 64 { str := normalizeNewlines r.src, pos := 0 } true false = .ok [.lit pre, .expr te tokE text, .lit post])
     (hsup : te.hasUnsupported = false)
     (hev : ∀ booleans node, evalT (cfgOf r booleans node) [] (env0Of r) 61 te .none none
         { log := #[], tlog := #[], token := some ((Tok.strip tokE).pos, (Tok.strip tokE).str.length) } = .ok v x1)
     (hconv : ∀ booleans node, convPartX (cfgOf r booleans node) (env0Of r) .none none true v x1 = .ok (some t) x2) :
     render r = .out (pre ++ (t ++ (post ++ []))) x2.log x2.tlog 0 := by
+  have hdec : (tcOf r).decodeInterp = false := by simp [tcOf, ht]
+  have hparts' : compileInterp (tcOf r) 64 { str := normalizeNewlines r.src, pos := 0 } true (tcOf r).decodeInterp =
+      .ok [.lit pre, .expr te tokE text, .lit post] := by rw [hdec]; exact hparts
   unfold render
   simp only [ht, Bool.not_true, Bool.and_false, if_false, Bool.false_eq_true]
   rw [C20_build_interp (c := _) (src := _) (hq := by simpa using hq) (hn := hn)]
@@ -85,12 +88,12 @@ theorem C20_render_text_expr_text (r : RenderReq) (pre post text : Str) (te : TE
   rw [hf]
   have hpu : partsUnsupported [.lit pre, .expr te tokE text, .lit post] = false := by
     simp [partsUnsupported, hsup]
-  have hcc := compileCheck_interp_ok (tcOf r) r.strict _ Esc.none _ (8 * (normalizeNewlines r.src).length + 61) hparts hpu
-  simp only [tcOf] at hcc
+  have hcc := compileCheck_interp_ok (tcOf r) r.strict _ Esc.none _ (8 * (normalizeNewlines r.src).length + 61) hparts' hpu
+  simp only [tcOf, ht, Bool.not_true] at hcc
   rw [hcc]
   simp only [hl, List.foldlM_nil, pure, Except.pure]
   have fin : ∀ booleans : List Str,
-      (match eval { tc := { rx := r.bcfg.rx, q := r.bcfg.q, oracle := r.oracle }, tab := r.tab, pyBuiltins := r.pyBuiltins,
+      (match eval { tc := { rx := r.bcfg.rx, q := r.bcfg.q, oracle := r.oracle, decodeInterp := false }, tab := r.tab, pyBuiltins := r.pyBuiltins,
                     talesExc := r.talesExc, existsExc := r.existsExc, excParents := r.excParents, booleanAttrs := booleans,
                     src := normalizeNewlines r.src, macros := [],
                     body := .seq [.interpolation (.interp { str := normalizeNewlines r.src, pos := 0 } .none none true true false)],
@@ -106,8 +109,8 @@ theorem C20_render_text_expr_text (r : RenderReq) (pre post text : Str) (te : TE
     have he := eval_text_interp
       (cfgOf r booleans (.seq [.interpolation (.interp { str := normalizeNewlines r.src, pos := 0 } .none none true true false)])) []
       (8 * (normalizeNewlines r.src).length + 61) { str := normalizeNewlines r.src, pos := 0 } tokE pre post text te
-      { streams := [[]], env := env0Of r, x := {}, handled := 0 } [] [] v t x1 x2 hparts rfl (hev _ _) (hconv _ _)
-    simp only [cfgOf, tcOf, env0Of] at he
+      { streams := [[]], env := env0Of r, x := {}, handled := 0 } [] [] v t x1 x2 hparts' rfl (hev _ _) (hconv _ _)
+    simp only [cfgOf, tcOf, env0Of, ht, Bool.not_true] at he
     rw [he]
     simp
   cases hb : r.booleanAttrs with
